@@ -67,9 +67,10 @@ func fullLeaves() []any {
 		nil, true, false,
 		int64(0), int64(1), int64(-1), int64(1 << 31), int64(1<<53 + 1), int64(math.MinInt64), int64(math.MaxInt64),
 		float64(1), float64(1.5), float64(-2.25), float64(1e21), float64(1e-7), float64(5e-324), float64(math.MaxFloat64), float64(123456789.125), float64(0.1), float64(2.2250738585072014e-308), float64(0.1234567890123456),
+		float64(203.18687664732286), // 17 digits: more than 2^53 as an integer of digits
 		"", "s", "q\"\\\n\t", "é 😀",
 		t0, tZone,
-		big1, json.Number("-1.5e999"), json.Number("0.12345678901234567890123"),
+		big1, json.Number("-1.5e999"), json.Number("0.12345678901234567890123"), json.Number("0.123456789012345678"), // 23 and 18 fraction digits
 	}
 }
 
